@@ -123,7 +123,7 @@ def run(ck):
             consts["PeerKinds"] = '{"data", "ping", "pong", "closeValid", "viol", "eof"}'
             consts["CallApis"] = '{"AsyncNextFrame", "AsyncNextMessage", "AsyncWrite", "AsyncWriteFrame", "AsyncFlush", "AsyncClose"}'
         cfg = vlib.cfg_with(sw, "WsAsyncImpl_mc.cfg", consts)
-        r = vlib.tlc(sw, SPECMOD, cfg, workers=1, timeout=1500)
+        r = vlib.tlc(sw, SPECMOD, cfg, workers=1, timeout=1500, env={"JAVA_TOOL_OPTIONS": "-Xmx4g"})
         if not r.ok:
             raise vlib.Inconclusive("WsAsyncImpl cover: %s\n%s" % (r.violated or r.error, r.tail()))
         ck.add_tlc("WsAsyncImpl transition cover", r, consts)
@@ -139,7 +139,7 @@ def run(ck):
         consts = {"MaxPeer": 3, "MaxCalls": 4 if quick else 5, "Partial": "TRUE", "BUG_SingleRecord": "FALSE",
                   "PeerKinds": '{"data", "ping", "closeValid"}' if quick else '{"data", "ping", "pong", "closeValid", "viol", "eof"}'}
         cfg = vlib.cfg_with(sw, "WsAsyncImpl_count.cfg", consts)
-        r = vlib.tlc(sw, SPECMOD, cfg, workers=3 if quick else max(4, vlib.NCPU - 6), timeout=1500)
+        r = vlib.tlc(sw, SPECMOD, cfg, workers=3 if quick else max(4, vlib.NCPU - 6), timeout=1500, env={"JAVA_TOOL_OPTIONS": "-Xmx8g"})
         if not r.ok:
             raise vlib.Inconclusive("WsAsyncImpl exhaustive: %s\n%s" % (r.violated or r.error, r.tail()))
         ck.add_tlc("WsAsyncImpl exhaustive", r, consts)
@@ -151,7 +151,7 @@ def run(ck):
         # overwriting the adapter's single write record) must reject: evidence that the model sees it
         consts = {"MaxPeer": 2, "MaxCalls": 3, "Partial": "TRUE", "BUG_SingleRecord": "TRUE"}
         cfg = vlib.cfg_with(sw, "WsAsyncImpl_count.cfg", consts)
-        r = vlib.tlc(sw, SPECMOD, cfg, workers=1, timeout=900)
+        r = vlib.tlc(sw, SPECMOD, cfg, workers=1, timeout=900, env={"JAVA_TOOL_OPTIONS": "-Xmx8g"})
         keys = sorted({line.split('"')[3] for line in r.lines('<<"MODELBAD"')})
         ck.cov["bug_switch_demo"] = {"BUG_SingleRecord=TRUE": keys or "NOT caught"}
 
